@@ -86,6 +86,12 @@ def make_form(form, ds=None):
             return tuple(idx)
         if how == 'nested':
             return (idx,)
+        if how == 'nested_np':
+            return (np.array(idx, dtype=np.int64),)  # what np.nonzero(mask) / np.where(cond) hand over
+        if how == 'nested_list_np':
+            return [np.array(idx, dtype=np.int64)]
+        if how == 'nested_list':
+            return [idx]
         if how == 'np64':
             return np.array(idx, dtype=np.int64)
         if how == 'np32':
